@@ -38,7 +38,13 @@ impl Srv {
             let t0 = Instant::now();
             loop {
                 if let Ok(Some(_)) = child.try_wait() { break; }
-                if std::net::TcpStream::connect(("127.0.0.1", port)).is_ok() { return Srv { child, port, dir }; }
+                if std::net::TcpStream::connect(("127.0.0.1", port)).is_ok() {
+                    // the port may have been taken by another harness process in the meantime: then
+                    // our child fails to bind and exits while the connect reached the other server
+                    std::thread::sleep(Duration::from_millis(40));
+                    if let Ok(None) = child.try_wait() { return Srv { child, port, dir }; }
+                    break;
+                }
                 if t0.elapsed() > Duration::from_secs(8) { let _ = child.kill(); let _ = child.wait(); break; }
                 std::thread::sleep(Duration::from_millis(5));
             }
